@@ -240,7 +240,7 @@ theorem C17_sort_by_col_ordered (v : VW) (buf : List α) (h : v.Inv buf.length) 
   rw [← hkey _ (hpk j hj)] at hy
   exact hstab i j hij (by omega) x y hx hy hyx
 
-/-- the same for the key-function variant -/
+/-- the same for the key-function variant: ordered by the keys, rows with equal keys keep their order -/
 theorem C17_sort_by_col_key_ordered {κ : Type} (v : VW) (buf : List α) (h : v.Inv buf.length) (a : Acc) (ha : a.Of v buf.length)
     (col : Nat → Res Col)
     (hcol : ∀ c, c < v.numCols → ∃ it, col c = .ok it ∧ it.WF v.numRows buf.length ∧
@@ -251,9 +251,26 @@ theorem C17_sort_by_col_key_ordered {κ : Type} (v : VW) (buf : List α) (h : v.
     (c : Nat) (hc : c < v.numCols) :
     ∃ p buf', a.sortByColKey col swapRows buf lim key leK c = .ok buf' ∧ p.Perm (List.range v.numRows) ∧
       buf' = gather buf (v.mapCells (sortRowsG p)) ∧
-      (v.colKeys buf' c).Pairwise (fun x y => leK (key x) (key y) = true) := by
-  obtain ⟨p, buf', e, hp, hb, hs, _⟩ := C17_sort_by_col_ordered v buf h a ha col hcol swapRows hsw lim hlim
+      (v.colKeys buf' c).Pairwise (fun x y => leK (key x) (key y) = true) ∧
+      (∀ i j, i < j → j < v.numRows → ∀ x y, buf[v.pos c (p.getD i 0)]? = some x → buf[v.pos c (p.getD j 0)]? = some y →
+        leK (key y) (key x) = true → p.getD i 0 < p.getD j 0) := by
+  exact C17_sort_by_col_ordered v buf h a ha col hcol swapRows hsw lim hlim
     (fun x y => leK (key x) (key y)) (fun a b c => htrans (key a) (key b) (key c)) (fun a b => htotal (key a) (key b)) c hc
-  exact ⟨p, buf', e, hp, hb, hs⟩
+
+/-- … and for the natural-order variant `sort_col_ord` (`leOrd` = `T: Ord`): ordered, ties keep their order -/
+theorem C17_sort_col_ord_ordered (v : VW) (buf : List α) (h : v.Inv buf.length) (a : Acc) (ha : a.Of v buf.length)
+    (col : Nat → Res Col)
+    (hcol : ∀ c, c < v.numCols → ∃ it, col c = .ok it ∧ it.WF v.numRows buf.length ∧
+      it.abs v.numRows = (List.range v.numRows).map fun r => v.pos c r)
+    (swapRows : List α → Nat → Nat → Res (List α)) (hsw : SwapRowsSpec v buf.length swapRows)
+    (lim : Nat) (hlim : v.numRows ≤ lim) (leOrd : α → α → Bool)
+    (htrans : ∀ a b c, leOrd a b → leOrd b c → leOrd a c) (htotal : ∀ a b, leOrd a b ∨ leOrd b a)
+    (c : Nat) (hc : c < v.numCols) :
+    ∃ p buf', a.sortColOrd col swapRows buf lim leOrd c = .ok buf' ∧ p.Perm (List.range v.numRows) ∧
+      buf' = gather buf (v.mapCells (sortRowsG p)) ∧
+      (v.colKeys buf' c).Pairwise (fun x y => leOrd x y = true) ∧
+      (∀ i j, i < j → j < v.numRows → ∀ x y, buf[v.pos c (p.getD i 0)]? = some x → buf[v.pos c (p.getD j 0)]? = some y →
+        leOrd y x = true → p.getD i 0 < p.getD j 0) :=
+  C17_sort_by_col_ordered v buf h a ha col hcol swapRows hsw lim hlim leOrd htrans htotal c hc
 
 end Toodee
